@@ -458,12 +458,26 @@ theorem set_McGroupSetupReq_mc_group_id_header (cph : Cipher) (cid m0 : Nat) (po
     (hpre : ∀ x ∈ [], x < 256) (hmid : ∀ x ∈ [m0], x < 256) (hpost : ∀ x ∈ post, x < 256) :
     SetAgree (setMcGroupSetupReq cph { data := cid :: ([] ++ [m0] ++ post), count := 0 } "mc_group_id_header" (.n v)) cid
       (Spec.MacCmd.applySetter cph.dec "McGroupSetupReq" ([] ++ [m0] ++ post) "mc_group_id_header" (.n v)) := by
-  rw [show Spec.MacCmd.applySetter cph.dec "McGroupSetupReq" ([] ++ [m0] ++ post) "mc_group_id_header" (.n v) = Spec.MacCmd.applyField 0 8 .mask ([] ++ [m0] ++ post) (.n v) from rfl]
-  refine ⟨.ok, [] ++ [v] ++ post, ?_, ?_⟩
-  · simp [setMcGroupSetupReq, setRaw, setByte, okD]
-  · have h := Spec.MacCmd.setFieldBytes_aligned [] [m0] post [v] (by simp) hpre hmid hpost (by simpa using hv)
+  rw [show Spec.MacCmd.applySetter cph.dec "McGroupSetupReq" ([] ++ [m0] ++ post) "mc_group_id_header" (.n v) = Spec.MacCmd.applyField 0 2 .mask ([] ++ [m0] ++ post) (.n v) from rfl]
+  have h0 : m0 < 256 := hmid m0 (by simp)
+  refine ⟨.ok, [] ++ [v % 4 + 4 * (m0 / 4)] ++ post, ?_, ?_⟩
+  · have hp := pat_m2 m0 h0 (v % 4) (Nat.mod_lt _ (by omega))
+    simp [setMcGroupSetupReq, modByte, index, setByte, okD, and3] at hp ⊢
+    omega
+  · have hb : ∀ x ∈ [v % 4 + 4 * (m0 / 4)], x < 256 := by
+      intro x hx
+      simp at hx
+      omega
+    have h := Spec.MacCmd.setFieldBytes_aligned [] [m0] post [v % 4 + 4 * (m0 / 4)] (by simp) hpre hmid hpost hb
     simp only [List.length_cons, List.length_nil, Spec.MacCmd.leValue, Nat.mul_zero, Nat.add_zero] at h
+    have key : Spec.MacCmd.setField (Spec.MacCmd.leValue ([] ++ [m0] ++ post)) 0 2 v
+        = Spec.MacCmd.setField (Spec.MacCmd.leValue ([] ++ [m0] ++ post)) 0 (8 * (0 + 1)) (v % 4 + 4 * (m0 / 4) + 256 * 0) := by
+      simp only [Spec.MacCmd.setField, List.nil_append, List.cons_append, Spec.MacCmd.leValue]
+      generalize Spec.MacCmd.leValue post = L
+      omega
     simp only [Spec.MacCmd.applyField, toSpecRes]
+    unfold Spec.MacCmd.setFieldBytes at h ⊢
+    rw [key]
     exact congrArg (fun x => some (none, x)) h
 
 theorem set_McGroupSetupReq_mc_addr (cph : Cipher) (cid a0 m0 m1 m2 m3 : Nat) (post : Bytes) (hpl : post.length = 24) (src : Bytes) (hs : src.length = 4) (hsb : ∀ x ∈ src, x < 256)
